@@ -126,6 +126,10 @@ C06_NotStuck == ~( Quiet(s) /\ (\E c \in s.called : s.done[c] = "pending") /\ Ti
 C06_ExactlyOne == \A c \in Calls : s.outcomes[c] <= 1
 \* C20: nothing left behind at quiescence once an idle tick has run
 C20_NoLeak == (Quiet(s) /\ Tick(HandleApi(s), TimeoutIn) = s) => (~s.q.on /\ ~s.p.on /\ s.gs = {} /\ s.ps = {})
+\* C07 (design level): between ticks every one of the K closest known candidates has been queried, and a lookup
+\* only completes when none of its requests is live - so at completion the K closest known entries were all queried
+C07_ClosureInv == s.q.on => Closest(s.q.cand) \subseteq s.q.vis
+C07_NoRequeryInv == \A i, j \in s.infl : (i.tid # j.tid /\ i.tid \in s.q.tids /\ j.tid \in s.q.tids) => i.to # j.to
 \* C06 liveness
 C06_Terminates == \A c \in Calls : (c \in s.called) ~> (s.done[c] # "pending")
 =============================================================================
